@@ -163,6 +163,26 @@ def fingerprint_collisions():
     return out
 
 
+def hash160_rare_inputs():
+    """Committed corpus of byte strings x for which HASH160(x) = RIPEMD160(SHA256(x)) drives RIPEMD-160 through a RARE internal
+    word: the word rotated in some step, or the word given to the fixed rotation by 10, is 0xffffffff or 0 (found by a
+    vectorised scan of 2.4*10^8 inputs; each item is re-certified at load by the instrumented own implementation)."""
+    import hashlib
+    import json
+    import os
+    from .ref import hashes
+    p = os.path.join(os.path.dirname(os.path.dirname(os.path.abspath(__file__))), "corpus", "hash160_rare_ripemd_states.json")
+    if not os.path.exists(p):
+        return []
+    out = []
+    for text, events in json.load(open(p)):
+        msg = text.encode()
+        got, _digest = hashes.ripemd160_rare_events(hashlib.sha256(msg).digest())
+        if got and set(events) <= got:
+            out.append((msg, "+".join(sorted(got))))
+    return out
+
+
 _CONF = {}
 _CONF_CASE = {}
 
